@@ -45,11 +45,13 @@ End LoopQ.
 (* ---------- registered events ---------- *)
 Definition greg (w : world) (i : N) : Prop := get_by_index (w_gev w) i <> None /\ nget (w_glists w) i <> None.
 Definition treg (w : world) (i : N) : Prop := get_by_index (w_tev w) i <> None.
+(* the event registered at global index [i], if any, carries type tag [tag] *)
+Definition gtagged (w : world) (i tag : N) : Prop := forall k info, get_by_index (w_gev w) i = Some (k, info) -> e_tag info = tag.
 Definition item_ok (w : world) (it : qitem) : Prop := if qi_targeted it then treg w (qi_idx it) else greg w (qi_idx it).
 
 Definition sender_ok (w : world) (h : hinfo) : Prop :=
   forall g t, In (Some (g, t)) (pss h) ->
-    (forall tag i, In (tag, i) g -> smem i (h_sent_g h) = true /\ greg w i) /\
+    (forall tag i, In (tag, i) g -> smem i (h_sent_g h) = true /\ greg w i /\ gtagged w i tag) /\
     (forall tag i, In (tag, i) t -> smem i (h_sent_t h) = true /\ treg w i).
 Definition NInv (w : world) : Prop := forall hk h, hlive w hk h -> sender_ok w h.
 Definition ByInv (w : world) : Prop :=
@@ -66,26 +68,35 @@ Definition YI (w : world) : Prop := ByInv w /\ GlInv w /\ NInv w /\ RcvI w.
 Definition ev_le0 (w' w : world) : Prop := (forall i, greg w i -> greg w' i) /\ (forall i, treg w i -> treg w' i).
 Definition kl_le (w' w : world) : Prop :=
   (forall k, sm_get k (w_gev w) <> None -> sm_get k (w_gev w') <> None) /\ (forall k, sm_get k (w_tev w) <> None -> sm_get k (w_tev w') <> None).
-Definition ev_le (w' w : world) : Prop := ev_le0 w' w /\ kl_le w' w.
-Lemma ev_le_g w' w : ev_le w' w -> forall i, greg w i -> greg w' i. Proof. intros [[A _] _]. exact A. Qed.
-Lemma ev_le_t w' w : ev_le w' w -> forall i, treg w i -> treg w' i. Proof. intros [[_ A] _]. exact A. Qed.
-Lemma ev_le_refl w : ev_le w w. Proof. split; split; auto. Qed.
+Definition tg_le (w' w : world) : Prop := forall i x, get_by_index (w_gev w) i = Some x -> get_by_index (w_gev w') i = Some x.
+Definition ev_le1 (w' w : world) : Prop := ev_le0 w' w /\ kl_le w' w.
+Definition ev_le (w' w : world) : Prop := ev_le1 w' w /\ tg_le w' w.
+Lemma ev_le_g w' w : ev_le w' w -> forall i, greg w i -> greg w' i. Proof. intros [[[A _] _] _]. exact A. Qed.
+Lemma ev_le_t w' w : ev_le w' w -> forall i, treg w i -> treg w' i. Proof. intros [[[_ A] _] _]. exact A. Qed.
+Lemma ev_le_tg w' w : ev_le w' w -> forall i tag, greg w i -> gtagged w i tag -> gtagged w' i tag.
+Proof.
+  intros [_ T] i tag [Hg _] Ht k info Hi. destruct (get_by_index (w_gev w) i) as [[k0 i0]|] eqn:E; [|congruence].
+  rewrite (T i _ E) in Hi. inversion Hi; subst. exact (Ht _ _ E).
+Qed.
+Lemma ev_le_refl w : ev_le w w. Proof. split; [split; split; auto|intros i x H; exact H]. Qed.
 Lemma ev_le_trans a b c : ev_le a b -> ev_le b c -> ev_le a c.
-Proof. intros [[A1 A2] [A3 A4]] [[B1 B2] [B3 B4]]. split; split; auto. Qed.
+Proof. intros [[[A1 A2] [A3 A4]] A5] [[[B1 B2] [B3 B4]] B5]. split; [split; split; auto|intros i x H; auto]. Qed.
 Lemma ev_le_reg w' w : registries w' = registries w -> ev_le w' w.
-Proof. unfold registries. intros H. injection H as E1 _ E2 _ E3. unfold ev_le, ev_le0, kl_le, greg, treg. rewrite E1, E2, E3. split; split; auto. Qed.
+Proof. unfold registries. intros H. injection H as E1 _ E2 _ E3. unfold ev_le, ev_le1, tg_le, ev_le0, kl_le, greg, treg. rewrite E1, E2, E3. split; [split; split; auto|auto]. Qed.
+Lemma ev_le_kg w' w : ev_le w' w -> forall k, sm_get k (w_gev w) <> None -> sm_get k (w_gev w') <> None. Proof. intros [[_ [A _]] _]. exact A. Qed.
+Lemma ev_le_kt w' w : ev_le w' w -> forall k, sm_get k (w_tev w) <> None -> sm_get k (w_tev w') <> None. Proof. intros [[_ [_ A]] _]. exact A. Qed.
 Lemma recv_ok_view w w' h h' : hview3 h' = hview3 h -> ev_le w' w -> recv_ok w h -> recv_ok w' h'.
 Proof.
-  unfold hview3. intros E [_ [K1 K2]] Hr. assert (Es : hstat h' = hstat h) by congruence. unfold recv_ok in *.
+  unfold hview3. intros E [[_ [K1 K2]] _] Hr. assert (Es : hstat h' = hstat h) by congruence. unfold recv_ok in *.
   rewrite (f_equal h_recv Es : h_recv h' = h_recv h). destruct (h_recv h); auto.
 Qed.
 
 Lemma sender_ok_view w w' h h' : hview3 h' = hview3 h -> ev_le w' w -> sender_ok w h -> sender_ok w' h'.
 Proof.
-  unfold hview3. intros E [[L1 L2] _] Hs g t Hin. assert (Es : hstat h' = hstat h) by congruence. assert (Ep : pss h' = pss h) by congruence.
+  unfold hview3. intros E Hle Hs g t Hin. assert (Es : hstat h' = hstat h) by congruence. assert (Ep : pss h' = pss h) by congruence.
   rewrite Ep in Hin. destruct (Hs g t Hin) as [A B].
   rewrite (f_equal h_sent_g Es : h_sent_g h' = h_sent_g h), (f_equal h_sent_t Es : h_sent_t h' = h_sent_t h).
-  split; intros tag i X; [destruct (A tag i X)|destruct (B tag i X)]; auto.
+  split; intros tag i X; [destruct (A tag i X) as (A1 & A2 & A3); split; [exact A1|split; [exact (ev_le_g _ _ Hle _ A2)|exact (ev_le_tg _ _ Hle _ _ A2 A3)]]|destruct (B tag i X) as [B1 B2]; split; [exact B1|exact (ev_le_t _ _ Hle _ B2)]].
 Qed.
 Lemma NInv_le w' w : hs_le w' w -> ev_le w' w -> NInv w -> NInv w'.
 Proof. intros Hh He HN hk h' Hl. destruct (Hh hk h' Hl) as (h & A & B). eapply sender_ok_view; eauto. Qed.
@@ -133,11 +144,11 @@ Lemma pushed_ok w h x : sender_ok w h -> pushed (h_params h) x -> item_ok w x.
 Proof.
   intros Hs (tag & Hl). apply sender_lookup_some in Hl as (g & t & Hin & Hal). apply alookup_in in Hal.
   assert (Hp : In (Some (g, t)) (pss h)) by (unfold pss; apply in_map_iff; exists (RSender g t); split; [reflexivity|exact Hin]).
-  destruct (Hs g t Hp) as [A B]. unfold item_ok. destruct (qi_targeted x); [exact (proj2 (B _ _ Hal))|exact (proj2 (A _ _ Hal))].
+  destruct (Hs g t Hp) as [A B]. unfold item_ok. destruct (qi_targeted x); [exact (proj2 (B _ _ Hal))|exact (proj1 (proj2 (A _ _ Hal)))].
 Qed.
 
 Lemma item_ok_reg w w' x : registries w' = registries w -> item_ok w x -> item_ok w' x.
-Proof. intros H. destruct (ev_le_reg _ _ H) as [[A B] _]. unfold item_ok. destruct (qi_targeted x); auto. Qed.
+Proof. intros H. destruct (ev_le_reg _ _ H) as [[[A B] _] _]. unfold item_ok. destruct (qi_targeted x); auto. Qed.
 
 (* ---------- one delivery ---------- *)
 Definition ZI (w : world) : Prop := EI w /\ YI w.
@@ -389,23 +400,18 @@ Proof.
   destruct (flush beh q w) as [[] w'|e w']; cbn [res_world] in *; (split; [exact A|split; [exact B|]]); [eapply ev_le_trans; eauto|exact I].
 Qed.
 
-Lemma gev_ZOK fuel : forall tag w, ZI w ->
-  ZOK (add_global_event beh fuel tag w) (fun k w' => ev_le w' w /\ greg w' (fst k) /\ sm_get k (w_gev w') <> None) /\
-  forall ev, ZOK (send_global beh fuel tag ev w) (fun _ w' => ev_le w' w).
+Lemma gev_entry_ZI w tag k m : ZI w -> insert_with (fun _ => mkE tag (gkind tag)) (w_gev w) = Some (k, m) ->
+  let w2 := set_glists (set_gev w m (ainsert tag k (w_gby w))) (nrepeat_to (w_glists (set_gev w m (ainsert tag k (w_gby w)))) (N.to_nat (fst k) + 1) hl_new) in
+  ZI w2 /\ ev_le w2 w /\ greg w2 (fst k) /\ gtagged w2 (fst k) tag.
 Proof.
-  induction fuel as [|f IH]; intros tag w HZ; [split; [|intros ev]; apply ZOK_fail; auto; cbn; tauto|].
-  assert (Hadd : ZOK (add_global_event beh (S f) tag w) (fun k w' => ev_le w' w /\ greg w' (fst k) /\ sm_get k (w_gev w') <> None)).
-  { rewrite add_global_event_S. destruct HZ as [[HD HS] (HB & HGl & HN & HRc)].
-    destruct (alookup tag (w_gby w)) as [k0|] eqn:El.
-    { apply ZOK_ok; [split; [split|split; [|split; [|split]]]; assumption|]. split; [apply ev_le_refl|split; [eapply greg_of_by; eauto|]]. destruct (proj1 HB _ _ El) as (i0 & A & _). rewrite A. discriminate. }
-    destruct (insert_with (fun _ => mkE tag (gkind tag)) (w_gev w)) as [[k m]|] eqn:Ei.
-    2:{ apply ZOK_fail; [split; [split|split; [|split; [|split]]]; assumption|cbn; tauto]. }
-    cbn zeta. pose proof (add_global_event_entry_DI w tag k m HD Ei) as HD2. set (w2 := set_glists _ _) in *.
+  intros HZ Ei. destruct HZ as [[HD HS] (HB & HGl & HN & HRc)].
+  pose proof (add_global_event_entry_DI w tag k m HD Ei) as HD2. cbn zeta. set (w2 := set_glists _ _) in *.
     assert (SG : SmInv (w_gev w)) by (destruct HD as [[[_ X] _] _]; exact X).
     assert (Hle : ev_le w2 w).
-    { split; split; [|intros i X; exact X| |intros k0 X; exact X].
+    { split; [split; split; [|intros i X; exact X| |intros k0 X; exact X]|].
       - intros i [A B]. split; unfold w2; cbn [w_gev w_glists set_glists set_hreg set_gev]; [eapply gbi_insert_mono; eauto|now apply nget_nrepeat_mono].
-      - intros k0 X. unfold w2. cbn [w_gev set_glists set_hreg set_gev]. rewrite (insert_get_other _ _ _ _ k0 SG Ei); [exact X|]. intros ->. apply X. eapply insert_get_fresh; eauto. }
+      - intros k0 X. unfold w2. cbn [w_gev set_glists set_hreg set_gev]. rewrite (insert_get_other _ _ _ _ k0 SG Ei); [exact X|]. intros ->. apply X. eapply insert_get_fresh; eauto.
+      - intros i [k0 x0] X. unfold w2. cbn [w_gev set_glists set_hreg set_gev]. exact (gbi_insert_old _ _ _ _ _ _ _ SG Ei X). }
     assert (Hnew : greg w2 (fst k)).
     { split; unfold w2; cbn [w_gev w_glists set_glists set_hreg set_gev].
       - erewrite gbi_insert_new by eauto. discriminate.
@@ -417,8 +423,27 @@ Proof.
       - intros i Hi. unfold w2 in *. cbn [w_gev w_glists set_glists set_hreg set_gev] in *. destruct (N.eq_dec i (fst k)) as [->|Hne]; [exact (proj2 Hnew)|].
         rewrite (gbi_insert_other _ _ _ _ i SG Ei Hne) in Hi. apply nget_nrepeat_mono. now apply HGl.
       - eapply NInv_le; [|exact Hle|exact HN]. now apply hs_le_hs. }
+    assert (Htag2 : gtagged w2 (fst k) tag).
+    { intros k1 info1 Hg1. unfold w2 in Hg1. cbn [w_gev set_glists set_hreg set_gev] in Hg1. rewrite (gbi_insert_new _ _ _ _ SG Ei) in Hg1. inversion Hg1; subst. reflexivity. }
+  split; [exact HZ2|split; [exact Hle|split; [exact Hnew|exact Htag2]]].
+Qed.
+
+Lemma gev_ZOK fuel : forall tag w, ZI w ->
+  ZOK (add_global_event beh fuel tag w) (fun k w' => ev_le w' w /\ greg w' (fst k) /\ sm_get k (w_gev w') <> None /\ gtagged w' (fst k) tag) /\
+  forall ev, ZOK (send_global beh fuel tag ev w) (fun _ w' => ev_le w' w).
+Proof.
+  induction fuel as [|f IH]; intros tag w HZ; [split; [|intros ev]; apply ZOK_fail; auto; cbn; tauto|].
+  assert (Hadd : ZOK (add_global_event beh (S f) tag w) (fun k w' => ev_le w' w /\ greg w' (fst k) /\ sm_get k (w_gev w') <> None /\ gtagged w' (fst k) tag)).
+  { rewrite add_global_event_S. destruct HZ as [[HD HS] (HB & HGl & HN & HRc)].
+    destruct (alookup tag (w_gby w)) as [k0|] eqn:El.
+    { apply ZOK_ok; [split; [split|split; [|split; [|split]]]; assumption|]. split; [apply ev_le_refl|split; [eapply greg_of_by; eauto|]]. destruct (proj1 HB _ _ El) as (i0 & A & At). split; [rewrite A; discriminate|].
+      intros k1 info1 Hg1. rewrite (gbi_of_get _ _ _ A) in Hg1. inversion Hg1; subst k1 info1. exact At. }
+    destruct (insert_with (fun _ => mkE tag (gkind tag)) (w_gev w)) as [[k m]|] eqn:Ei.
+    2:{ apply ZOK_fail; [split; [split|split; [|split; [|split]]]; assumption|cbn; tauto]. }
+    cbn zeta. assert (SG : SmInv (w_gev w)) by (destruct HD as [[[_ X] _] _]; exact X).
+    destruct (gev_entry_ZI w tag k m (conj (conj HD HS) (conj HB (conj HGl (conj HN HRc)))) Ei) as (HZ2 & Hle & Hnew & Htag2). cbn zeta in HZ2, Hle, Hnew, Htag2. set (w2 := set_glists _ _) in *.
     destruct (IH G_ADDGE w2 HZ2) as [_ Hs]. specialize (Hs (mkEv 0 0 k)).
-    eapply rbind_ZOK; [exact Hs|]. intros [] w3 HZ3 Hle3. apply ZOK_ok; [exact HZ3|]. split; [eapply ev_le_trans; eauto|split; [exact (ev_le_g _ _ Hle3 _ Hnew)|]]. apply (proj1 (proj2 Hle3) k). unfold w2. cbn [w_gev set_glists set_hreg set_gev]. rewrite (insert_get_new _ _ _ _ SG Ei). discriminate. }
+    eapply rbind_ZOK; [exact Hs|]. intros [] w3 HZ3 Hle3. apply ZOK_ok; [exact HZ3|]. split; [eapply ev_le_trans; eauto|split; [exact (ev_le_g _ _ Hle3 _ Hnew)|split; [|exact (ev_le_tg _ _ Hle3 _ _ Hnew Htag2)]]]. apply (ev_le_kg _ _ Hle3 k). unfold w2. cbn [w_gev set_glists set_hreg set_gev]. rewrite (insert_get_new _ _ _ _ SG Ei). discriminate. }
   split; [exact Hadd|]. intros ev. rewrite send_global_S. destruct (IH tag w HZ) as [(Z1 & N1 & P1) _].
   destruct (add_global_event beh f tag w) as [k w1|e w1]; cbn [res_world] in *.
   - destruct P1 as [Hle [Hg _]].
@@ -430,7 +455,7 @@ Proof.
 Qed.
 Lemma send_global_ZOK tag ev w : ZI w -> ZOK (send_global beh RFUEL tag ev w) (fun _ w' => ev_le w' w).
 Proof. intros H. exact (proj2 (gev_ZOK RFUEL tag w H) ev). Qed.
-Lemma add_global_event_ZOK tag w : ZI w -> ZOK (add_global_event beh RFUEL tag w) (fun k w' => ev_le w' w /\ greg w' (fst k) /\ sm_get k (w_gev w') <> None).
+Lemma add_global_event_ZOK tag w : ZI w -> ZOK (add_global_event beh RFUEL tag w) (fun k w' => ev_le w' w /\ greg w' (fst k) /\ sm_get k (w_gev w') <> None /\ gtagged w' (fst k) tag).
 Proof. intros H. exact (proj1 (gev_ZOK RFUEL tag w H)). Qed.
 
 Lemma add_component_ZOK tag w : ZI w -> ZOK (add_component beh tag w) (fun _ w' => ev_le w' w).
@@ -449,15 +474,10 @@ Proof.
   destruct (tag =? T_DESPAWN); (apply ZOK_ok; [exact HZ|apply ev_le_refl]).
 Qed.
 
-Lemma add_targeted_event_ZOK tag w : ZI w -> ZOK (add_targeted_event beh tag w) (fun k w' => ev_le w' w /\ treg w' (fst k) /\ sm_get k (w_tev w') <> None).
+Lemma tev_entry_ZI w0 tag kind k m : ZI w0 -> kind_comp_live w0 kind -> insert_with (fun _ => mkE tag kind) (w_tev w0) = Some (k, m) ->
+  ZI (tev_entry_world w0 tag kind k m) /\ ev_le (tev_entry_world w0 tag kind k m) w0 /\ treg (tev_entry_world w0 tag kind k m) (fst k).
 Proof.
-  intros HZ. rewrite add_targeted_event_unfold. pose proof (tev_stage1_ZOK tag w HZ) as (Z0 & N0 & P0).
-  destruct (tev_stage1_FInv beh tag w (proj1 (DI_parts _ (proj1 (proj1 HZ))))) as [_ Hl].
-  destruct (tev_stage1 beh tag w) as [kind w0|f w0]; cbn [rbind res_world] in *; [|split; [exact Z0|split; [exact N0|exact I]]].
-  destruct Z0 as [[HD0 HS0] (HB0 & HG0 & HN0 & HR0)].
-  destruct (alookup tag (w_tby w0)) as [k0|] eqn:El.
-  { apply ZOK_ok; [split; [split|split; [|split; [|split]]]; assumption|]. split; [exact P0|split; [eapply treg_of_by; eauto|]]. destruct (proj2 HB0 _ _ El) as (i0 & A & _). rewrite A. discriminate. }
-  destruct (insert_with (fun _ => mkE tag kind) (w_tev w0)) as [[k m]|] eqn:Ei; [|apply ZOK_fail; [split; [split|split; [|split; [|split]]]; assumption|cbn; tauto]].
+  intros Z0 Hl Ei. destruct Z0 as [[HD0 HS0] (HB0 & HG0 & HN0 & HR0)].
   pose proof (tev_entry_DI w0 tag kind k m HD0 Hl Ei) as HD1. set (w1 := tev_entry_world w0 tag kind k m) in *.
   assert (ST : SmInv (w_tev w0)) by (destruct (DI_parts _ HD0) as ([_ (_ & X & _)] & _); exact X).
   assert (Et : w_tev w1 = m) by (unfold w1, tev_entry_world; destruct kind; reflexivity).
@@ -465,7 +485,7 @@ Proof.
   assert (Eg : w_gev w1 = w_gev w0 /\ w_gby w1 = w_gby w0 /\ w_glists w1 = w_glists w0 /\ w_hs w1 = w_hs w0) by (unfold w1, tev_entry_world; destruct kind; repeat split).
   destruct Eg as (Eg1 & Eg2 & Eg3 & Eg4).
   assert (Hle : ev_le w1 w0).
-  { split; split.
+  { split; [split; split|intros i x X; now rewrite Eg1].
     - intros i X; unfold greg in *; now rewrite Eg1, Eg3.
     - intros i X. unfold treg in *. rewrite Et. eapply gbi_insert_mono; eauto.
     - intros k0 X. now rewrite Eg1.
@@ -476,8 +496,23 @@ Proof.
     - destruct HB0 as [B1 B2]. split; [rewrite Eg1, Eg2; exact B1|]. rewrite Et, Etb. eapply by_insert; eauto.
     - unfold GlInv. rewrite Eg1, Eg3. exact HG0.
     - eapply NInv_le; [|exact Hle|exact HN0]. now apply hs_le_hs. }
+  split; [exact HZ1|split; [exact Hle|exact Hnew]].
+Qed.
+
+Lemma add_targeted_event_ZOK tag w : ZI w -> ZOK (add_targeted_event beh tag w) (fun k w' => ev_le w' w /\ treg w' (fst k) /\ sm_get k (w_tev w') <> None).
+Proof.
+  intros HZ. rewrite add_targeted_event_unfold. pose proof (tev_stage1_ZOK tag w HZ) as (Z0 & N0 & P0).
+  destruct (tev_stage1_FInv beh tag w (proj1 (DI_parts _ (proj1 (proj1 HZ))))) as [_ Hl].
+  destruct (tev_stage1 beh tag w) as [kind w0|f w0]; cbn [rbind res_world] in *; [|split; [exact Z0|split; [exact N0|exact I]]].
+  destruct Z0 as [[HD0 HS0] (HB0 & HG0 & HN0 & HR0)].
+  destruct (alookup tag (w_tby w0)) as [k0|] eqn:El.
+  { apply ZOK_ok; [split; [split|split; [|split; [|split]]]; assumption|]. split; [exact P0|split; [eapply treg_of_by; eauto|]]. destruct (proj2 HB0 _ _ El) as (i0 & A & _). rewrite A. discriminate. }
+  destruct (insert_with (fun _ => mkE tag kind) (w_tev w0)) as [[k m]|] eqn:Ei; [|apply ZOK_fail; [split; [split|split; [|split; [|split]]]; assumption|cbn; tauto]].
+  assert (ST : SmInv (w_tev w0)) by (destruct (DI_parts _ HD0) as ([_ (_ & X & _)] & _); exact X).
+  destruct (tev_entry_ZI w0 tag kind k m (conj (conj HD0 HS0) (conj HB0 (conj HG0 (conj HN0 HR0)))) Hl Ei) as (HZ1 & Hle & Hnew). set (w1 := tev_entry_world w0 tag kind k m) in *.
+  assert (Et : w_tev w1 = m) by (unfold w1, tev_entry_world; destruct kind; reflexivity).
   eapply rbind_ZOK; [apply send_global_ZOK; exact HZ1|]. intros [] w2 HZ2 Hle2. apply ZOK_ok; [exact HZ2|].
-  split; [eapply ev_le_trans; [exact Hle2|eapply ev_le_trans; eauto]|split; [exact (ev_le_t _ _ Hle2 _ Hnew)|]]. apply (proj2 (proj2 Hle2) k). rewrite Et. rewrite (insert_get_new _ _ _ _ ST Ei). discriminate.
+  split; [eapply ev_le_trans; [exact Hle2|eapply ev_le_trans; eauto]|split; [exact (ev_le_t _ _ Hle2 _ Hnew)|]]. apply (ev_le_kt _ _ Hle2 k). rewrite Et. rewrite (insert_get_new _ _ _ _ ST Ei). discriminate.
 Qed.
 
 Lemma send_to_ZOK tag target ev w : ZI w -> ZOK (send_to beh tag target ev w) (fun _ w' => ev_le w' w).
@@ -526,15 +561,15 @@ Qed.
 (* ---------- the Sender part of a handler under construction ---------- *)
 Definition CfInv3 (c : hconfig) (w : world) : Prop :=
   forall g t, In (RSender g t) (cf_params c) ->
-    (forall tag i, In (tag, i) g -> smem i (cf_sg c) = true /\ greg w i) /\
+    (forall tag i, In (tag, i) g -> smem i (cf_sg c) = true /\ greg w i /\ gtagged w i tag) /\
     (forall tag i, In (tag, i) t -> smem i (cf_st c) = true /\ treg w i).
 Lemma CfInv3_le c w w' : ev_le w' w -> CfInv3 c w -> CfInv3 c w'.
-Proof. intros [[L1 L2] _] H g t Hin. destruct (H g t Hin) as [A B]. split; intros tag i X; [destruct (A tag i X)|destruct (B tag i X)]; auto. Qed.
+Proof. intros Hle H g t Hin. destruct (H g t Hin) as [A B]. split; intros tag i X; [destruct (A tag i X) as (A1 & A2 & A3); split; [exact A1|split; [exact (ev_le_g _ _ Hle _ A2)|exact (ev_le_tg _ _ Hle _ _ A2 A3)]]|destruct (B tag i X) as [B1 B2]; split; [exact B1|exact (ev_le_t _ _ Hle _ B2)]]. Qed.
 Lemma CfInv3_cfg0 w : CfInv3 cfg0 w. Proof. intros g t []. Qed.
 Definition CfR (c : hconfig) (w : world) : Prop :=
   match cf_recv c with RcOk (RvGlobal ek) => sm_get ek (w_gev w) <> None | RcOk (RvTargeted ek) => sm_get ek (w_tev w) <> None | _ => True end.
 Lemma CfR_le c w w' : ev_le w' w -> CfR c w -> CfR c w'.
-Proof. intros [_ [K1 K2]]. unfold CfR. destruct (cf_recv c) as [|[ek|ek]|]; auto. Qed.
+Proof. intros [[_ [K1 K2]] _]. unfold CfR. destruct (cf_recv c) as [|[ek|ek]|]; auto. Qed.
 Lemma CfR_cfg0 w : CfR cfg0 w. Proof. exact I. Qed.
 
 Section ZOps2.
@@ -552,27 +587,27 @@ Proof.
   eapply rbind_ZOK; [apply Hx; exact HZ|]. intros x' w1 HZ1 Hle1. eapply rbind_ZOK; [apply IHt; exact HZ1|]. intros t' w2 HZ2 Hle2. apply ZOK_ok; [exact HZ2|exact (ev_le_trans _ _ _ Hle2 Hle1)].
 Qed.
 
-Definition reg_ok (w : world) (x : bool * N * N) : Prop := if fst (fst x) then treg w (snd x) else greg w (snd x).
+Definition reg_ok (w : world) (x : bool * N * N) : Prop := if fst (fst x) then treg w (snd x) else greg w (snd x) /\ gtagged w (snd x) (snd (fst x)).
 Lemma register_set_ZOK evs : forall w, ZI w -> ZOK (register_set beh evs w) (fun r w' => ev_le w' w /\ forall x, In x r -> reg_ok w' x).
 Proof.
   induction evs as [|[t tag] rest IH]; intros w HZ; cbn [register_set]; [apply ZOK_ok; [exact HZ|split; [apply ev_le_refl|intros x []]]|].
   eapply rbind_ZOK with (post1 := fun k w' => ev_le w' w /\ reg_ok w' (t, tag, fst k)).
-  - destruct t; [eapply ZOK_weaken; [|apply add_targeted_event_ZOK; exact HZ]|eapply ZOK_weaken; [|apply add_global_event_ZOK; exact HZ]]; intros k0 w0 _ (A & B & _); split; assumption.
+  - destruct t; [eapply ZOK_weaken; [|apply add_targeted_event_ZOK; exact HZ]; intros k0 w0 _ (A & B & _); split; assumption|eapply ZOK_weaken; [|apply add_global_event_ZOK; exact HZ]; intros k0 w0 _ (A & B & _ & D); split; [exact A|split; assumption]].
   - intros k w1 HZ1 [Hle1 Hk]. eapply rbind_ZOK; [apply IH; exact HZ1|]. intros r w2 HZ2 [Hle2 Hr]. apply ZOK_ok; [exact HZ2|].
-    split; [exact (ev_le_trans _ _ _ Hle2 Hle1)|]. intros x [<-|Hin]; [|now apply Hr]. unfold reg_ok in *. cbn [fst snd] in *. destruct t; [exact (ev_le_t _ _ Hle2 _ Hk)|exact (ev_le_g _ _ Hle2 _ Hk)].
+    split; [exact (ev_le_trans _ _ _ Hle2 Hle1)|]. intros x [<-|Hin]; [|now apply Hr]. unfold reg_ok in *. cbn [fst snd] in *. destruct t; [exact (ev_le_t _ _ Hle2 _ Hk)|destruct Hk as [Hk1 Hk2]; split; [exact (ev_le_g _ _ Hle2 _ Hk1)|exact (ev_le_tg _ _ Hle2 _ _ Hk1 Hk2)]].
 Qed.
 
 Lemma init_param_ZOK p c w : ZI w -> CfInv3 c w -> CfR c w -> ZOK (init_param beh p c w) (fun c' w' => ev_le w' w /\ CfInv3 c' w' /\ CfR c' w').
 Proof.
   intros HZ HC HR. destruct p as [tag m|tag m q|k q|evs]; cbn [init_param].
-  - eapply rbind_ZOK; [apply add_global_event_ZOK; exact HZ|]. intros k w1 HZ1 [Hle [_ Hk]]. apply ZOK_ok; [exact HZ1|]. split; [exact Hle|split].
+  - eapply rbind_ZOK; [apply add_global_event_ZOK; exact HZ|]. intros k w1 HZ1 [Hle [_ [Hk _]]]. apply ZOK_ok; [exact HZ1|]. split; [exact Hle|split].
     + intros g t Hin. cbn [cf_params cf_sg cf_st] in *. apply in_app_or in Hin as [Hin|[X|[]]]; [|discriminate]. exact (CfInv3_le c w w1 Hle HC g t Hin).
     + unfold CfR, cfg_set_recv. cbn [cf_recv]. destruct (cf_recv c) as [|old|]; [exact Hk| |exact I]. destruct (recvid_eqb old (RvGlobal k)); [exact Hk|exact I].
   - eapply rbind_ZOK; [apply add_targeted_event_ZOK; exact HZ|]. intros k w1 HZ1 [Hle1 [_ Hk]].
     eapply rbind_ZOK; [apply resolve_query_ZOK; exact HZ1|]. intros q' w2 HZ2 Hle2. apply ZOK_ok; [exact HZ2|].
     assert (Hle : ev_le w2 w) by exact (ev_le_trans _ _ _ Hle2 Hle1). split; [exact Hle|split].
     + intros g t Hin. cbn [cf_params cf_sg cf_st] in *. apply in_app_or in Hin as [Hin|[X|[]]]; [|discriminate]. exact (CfInv3_le c w w2 Hle HC g t Hin).
-    + assert (Hk2 : sm_get k (w_tev w2) <> None) by exact (proj2 (proj2 Hle2) k Hk).
+    + assert (Hk2 : sm_get k (w_tev w2) <> None) by exact (ev_le_kt _ _ Hle2 k Hk).
       unfold CfR, cfg_set_recv. cbn [cf_recv]. destruct (cf_recv c) as [|old|]; [exact Hk2| |exact I]. destruct (recvid_eqb old (RvTargeted k)); [exact Hk2|exact I].
   - eapply rbind_ZOK; [apply resolve_query_ZOK; exact HZ|]. intros q' w1 HZ1 Hle. apply ZOK_ok; [exact HZ1|]. split; [exact Hle|split; [|exact (CfR_le c w w1 Hle HR)]].
     intros g t Hin. cbn [cf_params cf_sg cf_st] in *. apply in_app_or in Hin as [Hin|[X|[]]]; [|discriminate]. exact (CfInv3_le c w w1 Hle HC g t Hin).
@@ -640,6 +675,39 @@ Proof.
     intros a Hm. exact (proj2 (CfInv_pinv c a q p cache HC Hin Hq) Hm).
 Qed.
 
+Lemma add_handler_entry_ZI w1 sh c rv acc k hs : ZI w1 -> CfInv c -> CfInv2 c -> CfInv3 c w1 -> CfR c w1 -> cf_recv c = RcOk rv ->
+  insert_with (new_hinfo w1 sh c rv acc) (w_hs w1) = Some (k, hs) -> ZI (new_hworld w1 sh rv k hs).
+Proof.
+  intros Z1 HC HC2 HC3 HCR Erv Ei.
+  destruct Z1 as [[HD1 HS1] (HB1 & HG1 & HN1 & HR1)].
+  destruct (DI_parts _ HD1) as (_ & ((S & _) & _) & _ & _).
+  set (w2 := set_hreg w1 hs (new_glists w1 sh rv k) (match sh_tid sh with Some t => ainsert t k (w_hby w1) | None => w_hby w1 end) (w_hctr w1 + 1) (w_horder w1 ++ [(w_hctr w1, k)])).
+  assert (Hgl : forall i, nget (w_glists w1) i <> None -> nget (new_glists w1 sh rv k) i <> None).
+  { intros i Hi. unfold new_glists. destruct rv as [ek|ek]; [|exact Hi]. cbn zeta. destruct (nget (nrepeat_to _ _ _) (fst ek)); [apply nget_nset_mono|]; now apply nget_nrepeat_mono. }
+  assert (Hle : ev_le w2 w1) by (split; [split; split; [intros i [A B]; split; [exact A|now apply Hgl]|intros i X; exact X|intros k0 X; exact X|intros k0 X; exact X]|intros i x X; exact X]).
+  assert (HN2 : NInv w2).
+  { intros hk h Hl. unfold hlive, w2 in Hl. cbn [w_hs set_hreg] in Hl. destruct (key_eq_dec hk k) as [->|Hne].
+    - rewrite (insert_get_new _ _ _ _ S Ei) in Hl. inversion Hl; subst h. intros g t Hin. unfold pss, new_hinfo in Hin. cbn [h_params] in Hin.
+      apply in_map_iff in Hin as (p & Hp & Hin). destruct p; try discriminate. cbn [psend] in Hp. inversion Hp; subst. destruct (HC3 g t Hin) as [A B].
+      unfold new_hinfo. cbn [h_sent_g h_sent_t]. split; intros tag i X; [destruct (A tag i X) as (A1 & A2 & A3); split; [exact A1|split; [exact (ev_le_g _ _ Hle _ A2)|exact (ev_le_tg _ _ Hle _ _ A2 A3)]]|destruct (B tag i X) as [A1 A2]; split; [exact A1|exact (ev_le_t _ _ Hle _ A2)]].
+    - rewrite (insert_get_other _ _ _ _ hk S Ei Hne) in Hl. eapply sender_ok_view; [reflexivity|exact Hle|exact (HN1 hk h Hl)]. }
+  assert (HZ3 : ZI (new_hworld w1 sh rv k hs)).
+  { unfold new_hworld. fold w2. pose proof (hs_le_hv3 _ _ (hv3_archs_register_handler w2 k)) as Hh3.
+    split; [split; [exact (add_handler_entry_DI w1 sh c rv acc k hs HD1 HC Ei)|]|].
+    - eapply SInv_le; [exact Hh3|]. intros hk h Hl. unfold hlive, w2 in Hl. cbn [w_hs set_hreg] in Hl.
+      destruct (key_eq_dec hk k) as [->|Hne].
+      + rewrite (insert_get_new _ _ _ _ S Ei) in Hl. inversion Hl; subst h. destruct HC2 as [HA HBc]. split; unfold new_hinfo; cbn [pks h_params h_filter h_recv].
+        * exact HA.
+        * intros ek -> q Hin. specialize (HBc (ex_intro _ q Hin)). rewrite Erv in HBc. exact HBc.
+      + rewrite (insert_get_other _ _ _ _ hk S Ei Hne) in Hl. exact (HS1 hk h Hl).
+    - eapply YI_frame; [apply registries_archs_register_handler|exact Hh3|]. split; [exact HB1|split; [|split; [exact HN2|]]].
+      + intros i Hi. unfold w2. cbn [w_glists set_hreg]. apply Hgl. now apply HG1.
+      + intros hk h Hl. unfold hlive, w2 in Hl. cbn [w_hs set_hreg] in Hl. destruct (key_eq_dec hk k) as [->|Hne].
+        * rewrite (insert_get_new _ _ _ _ S Ei) in Hl. inversion Hl; subst h. unfold recv_ok, new_hinfo. cbn [h_recv]. unfold CfR in HCR. rewrite Erv in HCR. exact HCR.
+        * rewrite (insert_get_other _ _ _ _ hk S Ei Hne) in Hl. exact (HR1 hk h Hl). }
+  exact HZ3.
+Qed.
+
 Section ZOps3.
 Variable beh : hinfo -> logent -> N -> script.
 
@@ -656,32 +724,7 @@ Proof.
   change (insert_with _ (w_hs w1)) with (insert_with (new_hinfo w1 sh c rv acc) (w_hs w1)).
   destruct (insert_with (new_hinfo w1 sh c rv acc) (w_hs w1)) as [[k hs]|] eqn:Ei; [|apply ZOK_fail; [exact Z1|cbn; tauto]].
   match goal with |- context [archs_register_handler ?w2 k] => change (archs_register_handler w2 k) with (new_hworld w1 sh rv k hs) end.
-  destruct Z1 as [[HD1 HS1] (HB1 & HG1 & HN1 & HR1)].
-  destruct (DI_parts _ HD1) as (_ & ((S & _) & _) & _ & _).
-  set (w2 := set_hreg w1 hs (new_glists w1 sh rv k) (match sh_tid sh with Some t => ainsert t k (w_hby w1) | None => w_hby w1 end) (w_hctr w1 + 1) (w_horder w1 ++ [(w_hctr w1, k)])).
-  assert (Hgl : forall i, nget (w_glists w1) i <> None -> nget (new_glists w1 sh rv k) i <> None).
-  { intros i Hi. unfold new_glists. destruct rv as [ek|ek]; [|exact Hi]. cbn zeta. destruct (nget (nrepeat_to _ _ _) (fst ek)); [apply nget_nset_mono|]; now apply nget_nrepeat_mono. }
-  assert (Hle : ev_le w2 w1) by (split; split; [intros i [A B]; split; [exact A|now apply Hgl]|intros i X; exact X|intros k0 X; exact X|intros k0 X; exact X]).
-  assert (HN2 : NInv w2).
-  { intros hk h Hl. unfold hlive, w2 in Hl. cbn [w_hs set_hreg] in Hl. destruct (key_eq_dec hk k) as [->|Hne].
-    - rewrite (insert_get_new _ _ _ _ S Ei) in Hl. inversion Hl; subst h. intros g t Hin. unfold pss, new_hinfo in Hin. cbn [h_params] in Hin.
-      apply in_map_iff in Hin as (p & Hp & Hin). destruct p; try discriminate. cbn [psend] in Hp. inversion Hp; subst. destruct (HC3 g t Hin) as [A B].
-      unfold new_hinfo. cbn [h_sent_g h_sent_t]. split; intros tag i X; [destruct (A tag i X) as [A1 A2]; split; [exact A1|exact (ev_le_g _ _ Hle _ A2)]|destruct (B tag i X) as [A1 A2]; split; [exact A1|exact (ev_le_t _ _ Hle _ A2)]].
-    - rewrite (insert_get_other _ _ _ _ hk S Ei Hne) in Hl. eapply sender_ok_view; [reflexivity|exact Hle|exact (HN1 hk h Hl)]. }
-  assert (HZ3 : ZI (new_hworld w1 sh rv k hs)).
-  { unfold new_hworld. fold w2. pose proof (hs_le_hv3 _ _ (hv3_archs_register_handler w2 k)) as Hh3.
-    split; [split; [exact (add_handler_entry_DI w1 sh c rv acc k hs HD1 HC Ei)|]|].
-    - eapply SInv_le; [exact Hh3|]. intros hk h Hl. unfold hlive, w2 in Hl. cbn [w_hs set_hreg] in Hl.
-      destruct (key_eq_dec hk k) as [->|Hne].
-      + rewrite (insert_get_new _ _ _ _ S Ei) in Hl. inversion Hl; subst h. destruct HC2 as [HA HBc]. split; unfold new_hinfo; cbn [pks h_params h_filter h_recv].
-        * exact HA.
-        * intros ek -> q Hin. specialize (HBc (ex_intro _ q Hin)). rewrite Erv in HBc. exact HBc.
-      + rewrite (insert_get_other _ _ _ _ hk S Ei Hne) in Hl. exact (HS1 hk h Hl).
-    - eapply YI_frame; [apply registries_archs_register_handler|exact Hh3|]. split; [exact HB1|split; [|split; [exact HN2|]]].
-      + intros i Hi. unfold w2. cbn [w_glists set_hreg]. apply Hgl. now apply HG1.
-      + intros hk h Hl. unfold hlive, w2 in Hl. cbn [w_hs set_hreg] in Hl. destruct (key_eq_dec hk k) as [->|Hne].
-        * rewrite (insert_get_new _ _ _ _ S Ei) in Hl. inversion Hl; subst h. unfold recv_ok, new_hinfo. cbn [h_recv]. unfold CfR in HCR. rewrite Erv in HCR. exact HCR.
-        * rewrite (insert_get_other _ _ _ _ hk S Ei Hne) in Hl. exact (HR1 hk h Hl). }
+  pose proof (add_handler_entry_ZI w1 sh c rv acc k hs Z1 HC HC2 HC3 HCR Erv Ei) as HZ3.
   eapply rbind_ZOK; [apply send_global_ZOK; exact HZ3|]. intros [] w4 HZ4 _. apply ZOK_ok; [exact HZ4|exact I].
 Qed.
 End ZOps3.
@@ -691,7 +734,7 @@ Lemma YI_le w' w : w_gev w' = w_gev w -> w_gby w' = w_gby w -> w_tev w' = w_tev 
   (forall i, nget (w_glists w) i <> None -> nget (w_glists w') i <> None) -> hs_le w' w -> YI w -> YI w'.
 Proof.
   intros E1 E2 E3 E4 Hg Hh (HB & HG & HN & HR).
-  assert (He : ev_le w' w) by (split; split; [intros i [A B]; split; [now rewrite E1|now apply Hg]|intros i X; unfold treg in *; now rewrite E3|intros k0 X; now rewrite E1|intros k0 X; now rewrite E3]).
+  assert (He : ev_le w' w) by (split; [split; split; [intros i [A B]; split; [now rewrite E1|now apply Hg]|intros i X; unfold treg in *; now rewrite E3|intros k0 X; now rewrite E1|intros k0 X; now rewrite E3]|intros i x X; now rewrite E1]).
   split; [|split; [|split]].
   - unfold ByInv. rewrite E1, E2, E3, E4. exact HB.
   - intros i Hi. rewrite E1 in Hi. apply Hg. now apply HG.
@@ -811,10 +854,12 @@ Proof.
   - destruct HB2 as [B1 B2]. split; [|exact B2]. cbn [w_gev w_gby set_gev]. eapply by_remove; eauto.
   - intros i Hi. cbn [w_gev w_glists set_gev] in *. destruct (gbi_remove_mono _ _ _ _ _ Er Hi) as [_ X]. now apply HG2.
   - intros hk h Hl. change (hlive w2 hk h) in Hl. intros g t Hin. destruct (HN2 hk h Hl g t Hin) as [A B]. split; [|exact B].
-    intros tag i X. destruct (A tag i X) as [A1 [A2 A3]]. split; [exact A1|]. split; [|exact A3]. cbn [w_gev set_gev].
-    eapply gbi_remove_keep; [exact Er| |exact A2]. intros ->.
-    assert (Hp : P h = false) by exact (Hsurv hk h Hl).
-    unfold P in Hp. rewrite A1, orb_true_r in Hp. discriminate.
+    intros tag i X. destruct (A tag i X) as [A1 [[A2 A3] A4]].
+    assert (Hne : i <> fst k).
+    { intros ->. assert (Hp : P h = false) by exact (Hsurv hk h Hl). unfold P in Hp. rewrite A1, orb_true_r in Hp. discriminate. }
+    split; [exact A1|]. split; [split; [|exact A3]|]; cbn [w_gev set_gev].
+    + eapply gbi_remove_keep; [exact Er|exact Hne|exact A2].
+    + intros k1 info1 Hg1. cbn [w_gev set_gev] in Hg1. rewrite (gbi_remove_other _ _ _ _ i Er Hne) in Hg1. exact (A4 _ _ Hg1).
 Qed.
 
 Theorem remove_targeted_event_ZOK k w : ZI w -> ZOK (remove_targeted_event beh k w) (fun b w' => b = true ->
@@ -846,7 +891,7 @@ Proof.
   - destruct HB2 as [B1 B2]. split; [rewrite E1, E2; exact B1|]. rewrite E5, E6. eapply by_remove; eauto.
   - unfold GlInv. rewrite E1, E3. exact HG2.
   - intros hk h Hl. unfold hlive in Hl. rewrite E4 in Hl. change (hlive w2 hk h) in Hl. intros g t Hin. destruct (HN2 hk h Hl g t Hin) as [A B]. split.
-    + intros tag i X. destruct (A tag i X) as [A1 [A2 A3]]. split; [exact A1|]. split; [now rewrite E1|now rewrite E3].
+    + intros tag i X. destruct (A tag i X) as [A1 [[A2 A3] A4]]. split; [exact A1|]. split; [split; [now rewrite E1|now rewrite E3]|]. unfold gtagged. now rewrite E1.
     + intros tag i X. destruct (B tag i X) as [A1 A2]. split; [exact A1|]. unfold treg in *. rewrite E5.
       eapply gbi_remove_keep; [exact Er| |exact A2]. intros ->.
       assert (Hp : P h = false) by exact (Hsurv hk h Hl).
